@@ -5,7 +5,7 @@
 #include "common.h"
 #include "refmodel.h"
 
-const char *CHK_RULE = "one case = one descriptor (2..10 uniquely named commands in 1..2 groups, 0..6 variables each over 5 types x 3 widths x 3 access modes, named or not, "
+const char *CHK_RULE = "one case = one descriptor (2..10 uniquely named commands in 1..4 groups (any subset of groups disabled), 0..6 variables each over 5 types x 3 widths x 3 access modes, named or not, "
                        "all 16 handler subsets, only_test / disable / group-disable / implicit_write, descriptions or not) checked at four capacities (generous, text+2, text+1 = "
                        "exact fit, text = one short) for the TEST text of a target command (command FSM and event FSM) and for the command list; plus the dispatcher cross-check of "
                        "every (command, form); every case non-trivial; distinct by (reference list text, reference TEST text, capacity class)";
@@ -27,8 +27,13 @@ static void on_unit(bool isA, bool raw, const char *text, size_t len, bool a, bo
         size_t o = 0; for (const char *p = text; *p && o < sizeof got[0].text - 1; p++) if (*p != '\r') got[ngot].text[o++] = *p;
         got[ngot].text[o] = 0; ngot++;
 }
+static bool test_chain; static int chain_calls;      /* test handlers overwrite the text and ask for one more pass: the second pass must be handed the automatic text again */
 static cat_return_state policy(struct hcall *h)
 {
+        if (h->kind == K_TEST && test_chain && h->cmd->name[0] != '#') {
+                if (chain_calls++ == 0 && h->max >= 8) { *h->psize = (size_t)snprintf((char *)h->data, h->max, "~x"); return CAT_RETURN_STATE_DATA_NEXT; }
+                return CAT_RETURN_STATE_DATA_OK;
+        }
         if (h->kind == K_RUN && strcmp(h->cmd->name, "#H") == 0) return CAT_RETURN_STATE_PRINT_CMD_LIST_OK;
         if (h->kind == K_TEST && h->fsm == FSM_A && strcmp(h->cmd->name, "#T") == 0) return CAT_RETURN_STATE_PRINT_CMD_LIST_OK;
         return (h->kind == K_READ || h->kind == K_TEST) ? CAT_RETURN_STATE_DATA_OK : CAT_RETURN_STATE_OK;
@@ -43,11 +48,11 @@ void chk_describe(FILE *f)
 /* descriptor kept outside the world so that it can be rebuilt at several capacities */
 #define MAXC 12
 static struct dcmd { char name[16]; char desc[24]; bool has_desc, only_test, disable, implicit; int grp; unsigned hmask; int nv; struct { int type, access; size_t size; char name[6]; bool named; } v[6]; } D[MAXC];
-static int ND, NG; static bool gdis[2];
+static int ND, NG; static bool gdis[MAXGRP];
 static void gen_descriptor(void)
 {
-        NG = 1 + (int)rn(2); ND = NG + (int)rn(MAXC - 2 - (unsigned)NG);
-        gdis[0] = chance(15); gdis[1] = chance(15);
+        NG = 1 + (int)rn(MAXGRP); ND = NG + (int)rn(MAXC - 2 - (unsigned)NG);
+        for (int g = 0; g < MAXGRP; g++) gdis[g] = chance(NG > 2 ? 40 : 15);
         for (int i = 0; i < ND; i++) {
                 struct dcmd *d = &D[i]; memset(d, 0, sizeof *d);
                 snprintf(d->name, sizeof d->name, "+C%d%s", i, chance(30) ? "LONGER" : chance(20) ? "x" : "");
@@ -114,13 +119,17 @@ static void check_test(int wi, int capclass)
         bool testable = cmd_enabled(wi) && (c->test || ref_has_vars(c)) && !c->implicit_write;
         char line[64]; snprintf(line, sizeof line, "AT%s=?", c->name);
         snprintf(note, sizeof note, "TEST request \"%s\" at command capacity %zu; reference text is %d bytes", line, W.capA, tl);
+        chain_calls = 0;
         if (!run_line(line)) { inconclusive("no quiescence"); return; }
         CNT("test_requests");
+        bool chained = test_chain && c->test != NULL && W.capA >= 8;
         if (testable) {
                 bool fits = (size_t)tl + 1 <= W.capA;
                 if (fits) {
                         CNT("test_texts_compared"); if (capclass == 2) CNT("test_texts_at_exact_fit");
-                        if (!(ngot == 2 && got[0].type == 'D' && strcmp(got[0].text, ref) == 0 && got[1].type == 'C' && strcmp(got[1].text, "OK") == 0))
+                        if (chained) { CNT("test_texts_compared_after_handler_rewrite"); if (!(ngot == 3 && strcmp(got[0].text, "~x") == 0 && got[1].type == 'D' && strcmp(got[1].text, ref) == 0 && got[2].type == 'C' && strcmp(got[2].text, "OK") == 0))
+                                viol("C19", "test-text-differs", "after the test handler rewrote the text and returned DATA_NEXT, the next pass of AT%s=? must print the automatic text \"%.150s\" again", c->name, ref); }
+                        else if (!(ngot == 2 && got[0].type == 'D' && strcmp(got[0].text, ref) == 0 && got[1].type == 'C' && strcmp(got[1].text, "OK") == 0))
                                 viol("C19", ngot >= 1 && got[0].type == 'C' && strcmp(got[0].text, "ERROR") == 0 ? "fitting-text-refused" : "test-text-differs", "AT%s=? must print \"%.200s\" and OK", c->name, ref);
                 } else {
                         CNT("test_texts_one_short");
@@ -130,12 +139,15 @@ static void check_test(int wi, int capclass)
         /* event TEST of the same command */
         if (cmd_enabled(wi)) {                    /* the properties say nothing about events on disabled commands */
                 ngot = 0; out_reset(); units_reset(); in_reset();
+                chain_calls = 0;
+                bool chained_u = test_chain && c->test != NULL && W.capU >= 8;
                 if (cat_trigger_unsolicited_event(W.at, c, CAT_CMD_TYPE_TEST) != CAT_STATUS_OK) { inconclusive("trigger refused"); return; }
                 snprintf(note, sizeof note, "TEST event for \"%s\" at event capacity %zu; reference text is %d bytes", c->name, W.capU, tl);
                 if (run_quiet(quiet_bound() + 20000) < 0) { inconclusive("no quiescence"); return; }
                 bool fits = (size_t)tl + 1 <= W.capU;
                 CNT("test_events");
-                if (fits) { if (!(ngot == 1 && got[0].prod == 'U' && strcmp(got[0].text, ref) == 0)) viol("C19", "event-test-text-differs", "TEST event of \"%s\" must print \"%.200s\"", c->name, ref); }
+                if (fits && chained_u) { if (!(ngot == 2 && strcmp(got[0].text, "~x") == 0 && got[1].prod == 'U' && strcmp(got[1].text, ref) == 0)) viol("C19", "event-test-text-differs", "second pass of the TEST event of \"%s\" must print \"%.200s\"", c->name, ref); }
+                else if (fits) { if (!(ngot == 1 && got[0].prod == 'U' && strcmp(got[0].text, ref) == 0)) viol("C19", "event-test-text-differs", "TEST event of \"%s\" must print \"%.200s\"", c->name, ref); }
                 else if (ngot != 0) viol("C19", "truncated-instead-of-error", "TEST event text of %d bytes does not fit capacity %zu but something was printed", tl, W.capU);
         }
 }
@@ -196,6 +208,7 @@ void chk_run_case(uint64_t seed, long c, bool is_sweep)
 {
         (void)seed; (void)c; (void)is_sweep; note[0] = 0;
         gen_descriptor();
+        test_chain = chance(50);
         int target = (int)rn((unsigned)ND - 2);
         /* generous build: reference lengths, cross-check */
         build(700, chance(50), 700);
